@@ -181,7 +181,24 @@ pub(crate) mod verif_e5 {
             }
         };
     }
-    e5!(e5_empty, 0, 4);
+    /// the empty input: header, one empty raw last block, trailer of the empty digest
+    #[cfg_attr(kani, kani::proof)]
+    #[cfg_attr(kani, kani::unwind(34))]
+    #[cfg_attr(killingspark_zstd_rs_verif, no_mangle)]
+    pub fn e5_empty() {
+        let nothing = [0u8; 1];
+        let mut c = new_compressor();
+        c.set_source(Chunked { data: &nothing[..0], chunk: 4 });
+        c.set_drain(Vec::new());
+        c.compress();
+        let out = c.take_drain().unwrap();
+        check_frame(&out, &nothing[..0]);
+        let h = spec_block_header([out[6], out[7], out[8]]);
+        assert!(h.last && h.size == 0 && h.btype == SpecBlockType::Raw, "E5: the empty input is one empty raw last block");
+        #[cfg(feature = "hash")]
+        assert!(c.hasher == XxHash64::with_seed(0), "E5: nothing was hashed");
+        core::mem::forget(c);
+    }
     e5!(e5_short_bytewise, 3, 1);
     e5!(e5_exact_block, 4, 9);
     e5!(e5_block_plus_one, 5, 2);
